@@ -9,6 +9,11 @@ from framelint.canon import (canon_function, show, S, to_poly, mk_lt, mk_not, mk
                              single_defs, deref, Poly, diff_paths)
 from framelint.cfg import ENTRY, EXIT
 from .common import GLB, MODULE, ALLOC, sigma_xy, call_name, norm_stmt, stmt_calls, facts_text
+from framelint.canon import canon_function as _canon_function_expanded
+
+def canon_function(fi, model=None, opts=None):   # rules of this file match shapes: look through every local
+    return _canon_function_expanded(fi, model, opts, expand=True)
+
 
 
 @rule("C10", "R1.rigid-hard-modules", "EFFECT/GUARD",
